@@ -184,7 +184,7 @@ def user_subclass(M):
 def rating_subclass(RC, which=0):
     """a trivial application-side subclass of a rating class (a `Player(PlackettLuceRating)` that adds a field).  Two
     siblings: 0 inherits the constructor, 1 has its OWN constructor signature (nick, mu, sigma) as application classes do,
-    2 is an ORM-style entity (property-backed mu/sigma, identity equality and hashing).
+    2 is an ORM-style entity (identity equality and hashing, a mutable container attribute).
     Their instances ARE ratings of that model (isinstance).  Build instances with make_sub()."""
     key = (RC, which)
     if key not in _SUBCLASSES:
@@ -197,15 +197,15 @@ def rating_subclass(RC, which=0):
 
             _SUBCLASSES[key] = type("AppBot", (RC,), {"team_colour": "blue", "__init__": __init__})
         if which == 2:
-            # an ORM-style entity: mu and sigma are properties backed by a history list (every assignment is kept), and
-            # identity decides equality and hashing (two rows are the same player only if they are the same object)
+            # an ORM-style entity: identity decides equality and hashing (two rows are the same player only if they are
+            # the same object) and it carries a mutable container of its own.  mu and sigma stay plain attributes: a subclass
+            # that re-implements them as descriptors depends on how the base class stores them, which no property promises
+            # (seeded change C14-I showed that such a subclass turns a storage redesign of the base class into an alarm).
             def __init__(self, mu, sigma, name=None, _RC=RC):  # noqa: F811
-                self._mu_hist, self._sigma_hist = [], []
                 _RC.__init__(self, mu, sigma, name)
+                self.history = [(mu, sigma)]
 
             ns = {"__init__": __init__,
-                  "mu": property(lambda self: self._mu_hist[-1], lambda self, v: self._mu_hist.append(v)),
-                  "sigma": property(lambda self: self._sigma_hist[-1], lambda self, v: self._sigma_hist.append(v)),
                   "__eq__": lambda self, other: self is other, "__ne__": lambda self, other: self is not other,
                   "__hash__": lambda self: object.__hash__(self)}
             _SUBCLASSES[key] = type("AppEntity", (RC,), ns)
